@@ -90,6 +90,7 @@ def run(tier):
         u = corpus.rand_input(rng, 14)
         ops = [st.gen_fwd_op(rng, t, inp=u, mode=0, cap=32 * len(u) + 256, argmask=28, cursor=c) for c in range(len(u))]
         cases.append(common.Case("c07-cur%d" % ti, ["HOOK trace 1"], ops, {"table": t}))
+    cases += st.wide_cases(rng, 200 if tier == "quick" else 2500, per_table=6, back=True, exact=False, tag="c07w", budget=3000000)
     calls = st.run_and_trace(exe, cases)
     ntrace = 0
     trace_bad = []
